@@ -146,9 +146,28 @@ pub(crate) mod verif_e5 {
             let mut h = XxHash64::with_seed(0);
             h.write(&bytes[..n]);
             assert!(c.hasher == h, "E5: the hasher absorbed exactly the bytes read, re-seeded for this frame");
-            let t = (c.hasher.finish() as u32).to_le_bytes();
-            assert!(out[out.len() - 4..] == t, "E5: trailer = low 32 bits of XXH64 little-endian");
+            // (the trailer bytes themselves are checked on concrete data in e5_trailer_concrete: comparing two symbolic XXH64
+            // digests is intractable for the SAT back end)
         }
+        core::mem::forget(c);
+    }
+
+    /// trailer = low 32 bits of XXH64(seed 0) of the content, little-endian - on concrete data, against twox-hash as reference
+    #[cfg(feature = "hash")]
+    #[cfg_attr(kani, kani::proof)]
+    #[cfg_attr(kani, kani::unwind(34))]
+    #[cfg_attr(killingspark_zstd_rs_verif, no_mangle)]
+    pub fn e5_trailer_concrete() {
+        let data = [0x61u8, 0x62, 0x63, 0x00, 0xFF];
+        let mut c = new_compressor();
+        c.set_source(Chunked { data: &data, chunk: 2 });
+        c.set_drain(Vec::new());
+        c.compress();
+        let out = c.take_drain().unwrap();
+        let mut h = XxHash64::with_seed(0);
+        h.write(&data);
+        let t = (h.finish() as u32).to_le_bytes();
+        assert!(out[out.len() - 4..] == t, "E5: trailer = low 32 bits of XXH64 (seed 0) of the content, little-endian");
         core::mem::forget(c);
     }
 
@@ -214,6 +233,7 @@ pub(crate) mod verif_e5 {
 //@harness e5_exact_block kind=proof fn=FrameCompressor::compress props=C15,C02,C08 tier=quick bound="input of 4 bytes (contents symbolic), matcher spaces of 4 bytes, reader returning <= 9 bytes per call" witness=e5_exact_block timeout=1800
 //@harness e5_block_plus_one kind=proof fn=FrameCompressor::compress props=C15,C02,C08 tier=quick bound="input of 5 bytes (contents symbolic), matcher spaces of 4 bytes, reader returning <= 2 bytes per call" witness=e5_block_plus_one timeout=1800
 //@harness e5_two_blocks kind=proof fn=FrameCompressor::compress props=C15,C02,C08 tier=quick bound="input of 8 bytes (contents symbolic), matcher spaces of 4 bytes, reader returning <= 3 bytes per call" witness=e5_two_blocks timeout=1800
+//@harness e5_trailer_concrete kind=proof fn=FrameCompressor::compress props=C08,C02 tier=quick bound="one concrete 5-byte input (digest arithmetic is evaluated concretely)" witness=e5_trailer_concrete timeout=1800
 //@harness e5_compress_reuse kind=proof fn=FrameCompressor::compress props=C02,C08 tier=quick bound="two frames (5 and 3 bytes) through one compressor" witness=e5_compress_reuse timeout=1800
 //@harness e5_nohash_block_plus_one kind=proof fn=FrameCompressor::compress props=C18 tier=quick features=nohash bound="5 input bytes, 4-byte spaces, hash feature off" timeout=1800
 //@harness e5_nohash_exact_block kind=proof fn=FrameCompressor::compress props=C18 tier=quick features=nohash bound="4 input bytes, 4-byte spaces, hash feature off" timeout=1800
